@@ -101,6 +101,9 @@ func directCorpus() []*directInput {
 		// F6b: a modifier that changes nothing, on a contact whose stored membership is wrong
 		{Universe: simpleUniverse, Contact: &contactSpec{Name: "Jim", Lang: "eng", Status: "active", Groups: []int{3}, Fields: map[string]string{}}, Modifier: &modSpec{Kind: "name", Text: "Jim"}},
 		{Universe: simpleUniverse, Contact: bob("active", nil, nil), Modifier: &modSpec{Kind: "language", Text: "eng"}},
+		// F3g (fixed): setting the URN list the contact already has dropped the channel pointers silently
+		{Universe: simpleUniverse, Contact: bob("active", []string{"tel:+593979111111?channel=" + channelDefs[3].UUID, "telegram:12345?channel=" + ch1}, []int{3, 4}), Modifier: &modSpec{Kind: "urns", Mode: "set", URNs: []string{"tel:+593979111111?channel=" + channelDefs[3].UUID, "telegram:12345?channel=" + ch1}}},
+		{Universe: simpleUniverse, Contact: bob("active", nil, []int{3}), Modifier: &modSpec{Kind: "urns", Mode: "append", URNs: []string{"tel:+593979222222?channel=" + channelDefs[3].UUID}}},
 		// a group reference repeated in the stored contact (F6c, fixed by 595be89): Remove deleted one entry only
 		{Universe: simpleUniverse, Contact: &contactSpec{Name: "Jim", Lang: "eng", Status: "active", Groups: []int{3, 3, 0, 0}, Fields: map[string]string{}}, Modifier: &modSpec{Kind: "language", Text: "fra"}},
 		{Universe: simpleUniverse, Contact: &contactSpec{Name: "Jim", Lang: "eng", Status: "active", Groups: []int{0, 1, 0}, Fields: map[string]string{}}, Modifier: &modSpec{Kind: "groups", Mode: "remove", Groups: []int{0}}},
